@@ -149,7 +149,7 @@ func (w *World) commit(t *simcore.Task, wt *WTxn) {
 	w.S.Logf("T%d Commit invoke", wt.id)
 	var rtxn statedb.ReadTxn
 	ok := w.guard("C02", "Commit", func() { rtxn = wt.txn.Commit() })
-	wt.done = true
+	wt.done = ok
 	t.Op = ""
 	tx.commit = nil
 	tx.holding = nil
@@ -219,7 +219,7 @@ func (w *World) abort(t *simcore.Task, wt *WTxn) {
 	t.Op = "Abort"
 	w.S.Logf("T%d Abort invoke", wt.id)
 	ok := w.guard("C02", "Abort", func() { wt.txn.Abort() })
-	wt.done = true
+	wt.done = ok
 	t.Op = ""
 	tx.abort = nil
 	tx.holding = nil
